@@ -193,6 +193,10 @@ inductive Op
   | fabrecover (i : Nat)
   /-- an operation on objects of its own (TLV round trip of a persisted structure): the node is untouched -/
   | nop
+  /-- `Sessions::remove` from outside the administrative logic: the subscription reporter gives up on
+  a report to a subscriber that does not answer and drops the session it used (im.rs,
+  `process_subscriptions`, the `Err` branch) -/
+  | sdrop (sid : Nat)
 deriving Repr, DecidableEq, Inhabited
 
 /-! ## the store -/
@@ -738,6 +742,10 @@ def step (cfg : Cfg) (n : Node) (op : Op) : Node × Status :=
       -- the same after a start-up that failed on a damaged fabric blob
       ok { now := n.now, nextGen := n.nextGen }
     | .nop => ok n
+    | .sdrop sid =>
+      match getSess n sid with
+      | none => (n, .err "nosess")
+      | some _ => ok { n with sessions := n.sessions.filter (fun s => s.id ≠ sid) }
     | .tick secs => ok { n with now := n.now + secs }
     | .poll =>
       match checkTimeouts cfg n none with
